@@ -3,7 +3,7 @@
 //! (inputs that carry an error bound).
 
 use crate::sut::{In, Out, Params, T_ACTION, T_CANDLE, T_FLOAT, T_INT, T_OPT_CANDLE};
-use crate::tracked::{sum, wsum, Tri, T, U};
+use crate::tracked::{sum, wsum, Tri, ETA, T, U};
 use std::collections::VecDeque;
 use yata::core::Action;
 
@@ -1166,7 +1166,7 @@ pub fn make_ref(name: &str, p: &Params, first: &In) -> Option<Box<dyn RefM>> {
 						if s.w.len() % 2 == 1 {
 							RefOut::Exact(m)
 						} else {
-							RefOut::Arith(T::new(m, U * m.abs()))
+							RefOut::Arith(T::new(m, U * m.abs() + ETA))
 						}
 					}
 				}
